@@ -57,3 +57,18 @@ package query
 //@   loop 1:
 //@     invariant l <= len(b) && len(r.b) <= len(b) && len(brs) == l && 0 <= $n && $n < l
 //@   ensures true
+
+// ---------------------------------------------------------------------------
+// C07: parsing never yields a query that later stages cannot handle
+// ---------------------------------------------------------------------------
+
+// type: and case: produce placeholder nodes (a Type without child, a caseQ)
+// that only parseExprList lifts into the enclosing group. A negation must never
+// wrap such a placeholder: it would survive into Parse's result and crash
+// printing, searching and the wire conversion. Only this assertion is under
+// contract in parseExpr (its string handling is exempt: may_panic).
+//@ func query.parseExpr
+//@   may_panic
+//@   loop 1:
+//@     invariant true
+//@   assert at alloc:Not: !typeis(subQ, "*caseQ") && !(typeis(subQ, "*Type") && as(subQ, "*Type").Child == nil)
